@@ -133,12 +133,13 @@ _gate1("add_constraint_eq_BUFFER", "opden(a) == opden(b)", two=True)
 # if the ancilla bits encode -P(x) (slackval == -bden(P)) then F == 0; that such a setting exists for every integer
 # in [0, cap] is lemma L6 (assumed, exercised by the bounded clauses). The unary (log_trick=False) witness is
 # bounded only, because the unary special form encodes a different quantity in its ancillas.
-contract("qubovert.utils._binary_helpers:num_bits", props=["C02"], trusted=True,
+contract("qubovert.utils._binary_helpers:num_bits", props=["C02"],
          instances=[{"val": "real", "log_trick": "bool"}],
          raises=[("ValueError", "val < 0")], returns="int",
          ensures=["result >= 0", "slackcap(result, log_trick) >= val", "implies(val == 0, result == 0)",
                   "implies(not log_trick, result < val + 1)"],      # unary: exactly ceil(val)
-         note="L8: 2^bit_length(ceil v) - 1 >= v, resp. ceil(v) >= v; int.bit_length / math.ceil are outside qvc")
+         note="verified by body against the built-in semantics of math.ceil (c - 1 < v <= c) and int.bit_length "
+              "(2^(b-1) <= n < 2^b): 2^bit_length(ceil v) - 1 >= v, resp. ceil(v) >= v (L8 is the same fact in Lean)")
 
 _N = "(self._ancilla - old(self._ancilla))"
 contract(M + "_special_constraints_le_zero", props=["C02", "C03", "C08", "C14"],
